@@ -611,7 +611,7 @@ Fixpoint eval_env (fuel : nat) (root name : string) (d : envdef) {struct fuel} :
   match fuel with
   | O => out_of_fuel ;;; ret invalid_access
   | S f =>
-    let root' := if String.eqb root "" then name else root in
+    let root' := if String.eqb root "" || String.eqb root "<yaml>" then name else root in
     imps_set name {| is_evaluating := true; is_value := None |} ;;;
     r <- (fix go (is : list (string * bool)) (base : chain) (my : list (string * chain)) : M (chain * list (string * chain)) :=
             match is with
@@ -623,14 +623,18 @@ Fixpoint eval_env (fuel : nat) (root name : string) (d : envdef) {struct fuel} :
                 match s with
                 | Some i =>
                     if is_evaluating i then err ;;; go rest base my
-                    else proceed (match is_value i with Some v => v | None => [] end)
+                    else match is_value i with
+                         | Some v => proceed v
+                         | None => go rest base my     (* an earlier import of [n] failed: remembered, not retried *)
+                         end
                 | None =>
                     failed <- call W ;;
                     emit (EvLoad n) ;;;
+                    let remember_failure := imps_set n {| is_evaluating := false; is_value := None |} in
                     match (if failed then LoadFail
                            else match alookup n (w_envs W) with Some l => l | None => LoadFail end) with
-                    | LoadFail => err ;;; go rest base my
-                    | LoadNoParse => err ;;; go rest base my
+                    | LoadFail => err ;;; remember_failure ;;; go rest base my
+                    | LoadNoParse => err ;;; remember_failure ;;; go rest base my
                     | LoadOk d' =>
                         v <- eval_env f root' n d' ;;
                         imps_set n {| is_evaluating := false; is_value := Some v |} ;;;
